@@ -1,6 +1,6 @@
 ------------------------------- MODULE ZnFmt -------------------------------
 (* C14 (format part) - `template % list` replaces the k-th { } placeholder by the k-th list element.
-   Template characters are symbols: "x" literal text, "{" "}" braces, "#" "+" "." "2" (a digit) "E" "%".
+   Template characters are symbols: "x" literal text, "_" a blank, "{" "}" braces, "#" "+" "." "0" "2" (digits) "E" "%".
    The scanner is a state machine (begin | literal | format), one character per step, producing
    segments; a placeholder's directive must follow the documented grammar
         ""                    display form of the element
@@ -11,15 +11,16 @@
    value is an exact decimal with no more fraction digits than the precision, the digits themselves. *)
 EXTENDS Integers, Sequences, FiniteSets, TLC, Json
 CONSTANTS MaxLen, DirLen
-Sigma == {"x", "{", "}", "#", "+", ".", "2", "E", "%"}
+Sigma == {"x", "_", "{", "}", "#", "+", ".", "0", "2", "E", "%"}     \* "_" a blank (space, TAB, line break, U+3000 ...): literal text like any other, never part of a directive; "0" "2" digits
 RECURSIVE StrUpTo(_)
 StrUpTo(n) == IF n = 0 THEN {<<>>} ELSE LET S == StrUpTo(n - 1) IN S \cup {Append(t, c) : t \in {u \in S : Len(u) = n - 1}, c \in Sigma}
 
 \* directive -> plan.  [ok, soft, plus, prec (-1 none), verb: "disp" | "g" | "f" | "E" | "pct"]
 RECURSIVE Digits(_)
-Digits(d) == d = <<>> \/ (d[1] = "2" /\ Digits(Tail(d)))
+IsDigit(c) == c \in {"0", "2"}
+Digits(d) == d = <<>> \/ (IsDigit(d[1]) /\ Digits(Tail(d)))
 RECURSIVE DigVal(_, _)
-DigVal(d, acc) == IF d = <<>> THEN acc ELSE IF acc > 9999999 THEN 99999999 ELSE DigVal(Tail(d), acc * 10 + 2)    \* saturates: "absurdly large"
+DigVal(d, acc) == IF d = <<>> THEN acc ELSE IF acc > 9999999 THEN 99999999 ELSE DigVal(Tail(d), acc * 10 + (IF d[1] = "0" THEN 0 ELSE 2))    \* saturates: "absurdly large"
 Plan(d) ==
   IF d = <<>> THEN [ok |-> TRUE, soft |-> FALSE, plus |-> FALSE, prec |-> -1, verb |-> "disp"]
   ELSE IF d[1] # "#" THEN [ok |-> FALSE, soft |-> FALSE, plus |-> FALSE, prec |-> -1, verb |-> "bad"]
@@ -28,7 +29,7 @@ Plan(d) ==
            r2 == IF plus THEN Tail(r1) ELSE r1
            hasdot == r2 # <<>> /\ r2[1] = "."
            r3 == IF hasdot THEN Tail(r2) ELSE r2
-           nd == IF hasdot THEN (CHOOSE n \in 0..Len(r3) : Digits(SubSeq(r3, 1, n)) /\ (n = Len(r3) \/ r3[n + 1] # "2")) ELSE 0
+           nd == IF hasdot THEN (CHOOSE n \in 0..Len(r3) : Digits(SubSeq(r3, 1, n)) /\ (n = Len(r3) \/ ~IsDigit(r3[n + 1]))) ELSE 0
            r4 == SubSeq(r3, nd + 1, Len(r3))
            verb == IF r4 = <<>> THEN (IF hasdot THEN "f" ELSE "g") ELSE IF r4 = <<"E">> THEN "E" ELSE IF r4 = <<"%">> THEN "pct" ELSE "bad"
        IN [ok |-> verb # "bad",
@@ -41,7 +42,7 @@ vars == <<tpl, pos, state, segs, cur, err>>
 LongPrec == {<<"{", "#", ".">> \o [q \in 1..n |-> "2"] \o <<"}">> : n \in {3, 8, 12, 20, 25}} \cup {<<"{", "#", "+", ".">> \o [q \in 1..n |-> "2"] \o <<"E", "}">> : n \in {10, 22}}
 \* plus every single placeholder whose directive is a string of up to DirLen directive symbols (the directive grammar
 \* has more depth than a template of MaxLen symbols reaches: {#+.22E} , {#.2E2} , {#.2%%} ...)
-DSigma == {"#", "+", ".", "2", "E", "%"}
+DSigma == {"#", "+", ".", "0", "2", "E", "%", "_"}
 RECURSIVE DirUpTo(_)
 DirUpTo(n) == IF n = 0 THEN {<<>>} ELSE LET S == DirUpTo(n - 1) IN S \cup {Append(t, c) : t \in {u \in S : Len(u) = n - 1}, c \in DSigma}
 OnePh == {<<"{">> \o d \o <<"}">> : d \in DirUpTo(DirLen)}
